@@ -442,6 +442,38 @@ MANIFEST_TEXT["C19"] = {
     "design_ref": "DESIGN.md section 3 / C19",
 }
 
+PLAN["C16"] = {
+    "pkg": "c16",
+    "tests": [
+        {"name": "TestVersionMigration", "quick": (24000, 8), "thorough": (1600000, 16)},
+        {"name": "TestLegacyMigration", "quick": (24000, 4), "thorough": (1600000, 16)},
+        {"name": "TestHostileDefinitions", "quick": (40000, 4), "thorough": (3200000, 16)},
+    ],
+    "budget": {"quick": 600, "thorough": 5400},
+    "rule": "(a,c) flows from the world generator (all action/router/wait types, localization in fra/spa) rewritten into the shape of each "
+            "source version 13.0-13.6 (templating{template,variables} without/with uuid, templating{template,components[...]} incl. a "
+            "second component, translations of variables/params, language 'base'/''/'en' before 13.2, @webhook references appended to "
+            "action templates and router operands before 13.3, over-long result and category names before 13.6): MigrateToLatest "
+            "succeeds, the result loads with definition.ReadFlow, flow UUID / node sequence / every exit UUID and destination are kept, a "
+            "second migration is a byte-identical no-op, stepwise migration through every version equals direct migration under the same "
+            "UUID seed, a current-version definition is returned untouched, marshal(read(marshal(read(x)))) is stable, and every "
+            "@webhook-referencing action template evaluates the same with webhook=V before and webhook={json:V} after. (b) legacy flows "
+            "assembled from the repository's 24 action, 20 rule-set fragments (calibrated once per flow type) into random graphs of 1-6 "
+            "nodes with consistently re-drawn UUIDs, rules of one category sharing a destination: migrates, loads, flow UUID kept, entry "
+            "node first, every action set / rule set is a node, action-set exits and the first rule of each category are exits with the "
+            "same destination, second migration is a no-op. (d) 1-3 structural mutations (member deleted/null/empty/mistyped, array item "
+            "dropped) at random depth of generated definitions and of 32 repository fixtures, truncations and arbitrary JSON: ReadFlow / "
+            "MigrateToLatest return (error or flow) without panic. Non-trivial = definition exercises >= 1 migration-relevant feature / has "
+            "rule sets / any hostile document; distinct by document.",
+    "assumptions": COMMON_ASSUMPTIONS + ["'valid at the older version' is by construction from the repository's own before/after fixtures; result names use the alphabet every validator version enforced"],
+}
+MANIFEST_TEXT["C16"] = {
+    "technique": "property-based testing (rapid): version-parameterised definition generator with structural-preservation, idempotence, stepwise-vs-direct and rename-relation oracles; mutation-based robustness testing (plus a native go-fuzz target in the thorough tier)",
+    "level_text": "Exploration: every generated 13.x and legacy definition migrated to a loadable, graph-equivalent, stable definition; no hostile document caused a panic.",
+    "level_note": "Legacy coverage is bounded by the repository's fragment library; 13.x shapes by the features listed in the rule.",
+    "design_ref": "DESIGN.md section 3 / C16",
+}
+
 # every property without a registered check is listed here with the reason (kept current as checks are added)
 NOT_APPLICABLE = [{"property_id": pid, "reason": "check not built yet in this round (planned in DESIGN.md); nothing is claimed for it"}
                   for pid in ALL_IDS if pid not in PLAN]
